@@ -190,7 +190,7 @@ const STMTCTX = {
   arrow_block_stmt: 'return (() => { x = @E@; return x })()',
   closure_in_loop: 'const fs = []; for (let n = 0; n < 2; n++) { fs.push(() => @E@) } return fs.map((q) => q())',
   with: 'with (E.w) x = @E@; return x',
-  generator: 'function* gen() { yield 1; const r = @E@; yield r } const it = gen(); it.next(); return it.next().value',
+  generator: 'function* gen() { yield 1; const r = @E@; return r } const it = gen(); const seen = []; let st; let n = 0; while (!(st = it.next("y" + n++)).done && n < 12) seen.push(st.value); return [seen, st.value]',
   async: 'return (async () => { await null; return @E@ })()',
   async_fn: 'async function af() { const r = @E@; await null; return r } return af()'
 }
